@@ -34,6 +34,8 @@ func propC09() Property {
 			{ID: "C09-K5", Desc: "recursive cycles in the cone are guarded or reviewed", Min: 2, Run: c09K5},
 			{ID: "C09-K6", Desc: "garbage does not wedge the session", Min: 2, Run: c09K6},
 			{ID: "C09-K7", Desc: "no send on a closed channel: close → nil → drain on teardown (= C08-R10)", Min: 2, Run: c08R10},
+			{ID: "C09-K11", Desc: "cyclic component definitions are refused on every resolution path (= C19-R4)", Min: 2, Run: c19R4},
+			{ID: "C09-K10", Desc: "validation rules index the message table only after the type was found in it", Min: 2, Run: c09K10},
 			{ID: "C09-K9", Desc: "the stash replay loop consumes the entry it replays: a replay that leaves the expected number unchanged cannot spin (= C04-R5)", Min: 3, Run: c04R5},
 			{ID: "C09-K8", Desc: "a wire-supplied EndSeqNo is clipped to what exists before it drives the replay loop (= C03-R1)", Min: 2, Run: c03R1},
 		},
@@ -1797,13 +1799,20 @@ func c09K5(c *Ctx) {
 		pos := p.Pos(comp[0].Pos())
 		// mark-before-recurse: some function of the cycle has a call into the cycle that is
 		// (a) guarded by !M[k] for a map M and (b) dominated by a map update M[k] = …
-		guarded := false
+		// every cycle inside the component must pass such a guarded call: remove the edges all of
+		// whose static call sites are guarded and look for a cycle in what is left
+		type edge struct{ from, to *ssa.Function }
+		sites := map[edge]int{}
+		guardedSites := map[edge]int{}
 		for _, f := range comp {
 			for _, cl := range Calls(f) {
 				cal := cl.Common().StaticCallee()
 				if cal == nil || !in[cal] {
 					continue
 				}
+				e := edge{f, cal}
+				sites[e]++
+				siteGuarded := false
 				d := p.ReachCond(cl.Block())
 				for _, a := range d.Atoms() {
 					if a.Rel != "" || a.Val || a.B.Kind != "lookup" {
@@ -1817,13 +1826,51 @@ func c09K5(c *Ctx) {
 					ForEachInstr(f, func(x ssa.Instruction) {
 						if mu, ok := x.(*ssa.MapUpdate); ok && InstrDominates(mu, cl) {
 							if p.Origin(mu.Map).String() == a.B.Base.String() && p.Origin(mu.Key).String() == a.B.Y.String() {
-								guarded = true
+								siteGuarded = true
 							}
 						}
 					})
 				}
+				if siteGuarded {
+					guardedSites[e]++
+				}
 			}
 		}
+		anyGuard := len(guardedSites) > 0
+		rest := map[*ssa.Function][]*ssa.Function{}
+		for _, f := range comp {
+			for _, w := range adj[f] {
+				if !in[w] {
+					continue
+				}
+				e := edge{f, w}
+				if sites[e] > 0 && guardedSites[e] == sites[e] {
+					continue // every way from f to w is guarded
+				}
+				rest[f] = append(rest[f], w)
+			}
+		}
+		// what is left may still contain structural recursion over finite data (nested <group>
+		// elements): each remaining cyclic sub-component must be reviewed as such
+		hasCycle := false
+		for _, sub := range cyclicComponents(comp, rest) {
+			var subShapes []string
+			for _, f := range sub {
+				subShapes = append(subShapes, fnShape(f))
+			}
+			sort.Strings(subShapes)
+			if len(sub) == len(comp) {
+				hasCycle = true // nothing was cut: judged below as a whole
+				continue
+			}
+			if _, ok := rev["K5|"+strings.Join(subShapes, " ⟷ ")]; !ok {
+				hasCycle = true
+				if os.Getenv("QFSA_REKEY") != "" {
+					fmt.Printf("REKEY\t%s\t%s\t%s\n", "K5|"+strings.Join(subShapes, " ⟷ "), "K5|"+strings.Join(subShapes, " ⟷ "), "")
+				}
+			}
+		}
+		guarded := anyGuard && !hasCycle
 		if guarded {
 			c.OK(label, pos, "cycle has a mark-before-recurse guard (visited map tested and set before the recursive call)")
 			continue
@@ -2117,4 +2164,58 @@ func fnShape(fn *ssa.Function) string {
 
 func shortType(t types.Type) string {
 	return types.TypeString(t, func(*types.Package) string { return "" })
+}
+
+// cyclicComponents: the strongly connected components of the graph (nodes, adj) that contain a cycle.
+func cyclicComponents(nodes []*ssa.Function, adj map[*ssa.Function][]*ssa.Function) [][]*ssa.Function {
+	index := 0
+	idx := map[*ssa.Function]int{}
+	low := map[*ssa.Function]int{}
+	on := map[*ssa.Function]bool{}
+	var stack []*ssa.Function
+	var out [][]*ssa.Function
+	var strong func(v *ssa.Function)
+	strong = func(v *ssa.Function) {
+		index++
+		idx[v], low[v] = index, index
+		stack = append(stack, v)
+		on[v] = true
+		for _, w := range adj[v] {
+			if idx[w] == 0 {
+				strong(w)
+				if low[w] < low[v] {
+					low[v] = low[w]
+				}
+			} else if on[w] && idx[w] < low[v] {
+				low[v] = idx[w]
+			}
+		}
+		if low[v] == idx[v] {
+			var comp []*ssa.Function
+			for {
+				w := stack[len(stack)-1]
+				stack = stack[:len(stack)-1]
+				on[w] = false
+				comp = append(comp, w)
+				if w == v {
+					break
+				}
+			}
+			self := false
+			for _, w := range adj[v] {
+				if w == v {
+					self = true
+				}
+			}
+			if len(comp) > 1 || self {
+				out = append(out, comp)
+			}
+		}
+	}
+	for _, n := range nodes {
+		if idx[n] == 0 {
+			strong(n)
+		}
+	}
+	return out
 }
